@@ -1571,8 +1571,93 @@ Proof.
   assert (Hbf : strip_prefix (kw_binary_fixed T) (int_prefix i ++ w) = None).
   { pose proof (ok_cf_alias T Hok) as Hpw. cbn [pw_cf int_heads forallb] in Hpw.
     apply andb_true_iff in Hpw as [Hf _]. apply andb_true_iff in Hf as [H1 Hf]. apply andb_true_iff in Hf as [H2 _].
-    unfold int_prefix. destruct (it_unsigned i); [rewrite <- app_assoc; apply cf_strip; exact H1|cbn [app]; apply cf_strip; exact H2]. }
+    unfold int_prefix. destruct (it_unsigned i); [apply (cf_strip _ (int_unsigned_prefix T ++ int_kw T)); exact H1|cbn [app]; apply cf_strip; exact H2]. }
   rewrite Hbf. reflexivity.
+Qed.
+
+Definition item_comment (it : item) : option string := match it with IDecl d => decl_comment d | _ => None end.
+
+Lemma item_tlines_first st it : wf_style st = true -> wf_item T it = true -> (forall c, it <> IComment c) ->
+  exists c0 rest, item_tlines T st it = comment_tlines [] (item_comment it) ++ PStmt [] c0 :: rest
+    /\ wf_comment T (item_comment it) = true /\ forallb pline_ok rest = true
+    /\ c0 = match it with
+            | IDecl (DAlias n l _) => r_alias T st n l
+            | IDecl (DEnum n b _ attrs _) => match attrs with Some (a :: _) => r_attr T st CEnum a | _ => r_enum_header T n b end
+            | IDecl (DStruct s) => match s_attrs s with Some (a :: _) => r_attr T st CStruct a | _ => r_struct_header T (s_disp s) (s_name s) end
+            | IImport p => r_import T p
+            | IComment _ => []
+            end.
+Proof.
+  intros Hst Hwf Hnc. pose proof (tlines_ok st [it] Hst ltac:(cbn [forallb]; rewrite Hwf; reflexivity)) as Hall.
+  unfold tlines in Hall. cbn [flat_map] in Hall. rewrite app_nil_r in Hall.
+  destruct it as [d|p|c]; [| |exfalso; eapply Hnc; reflexivity]; cbn [item_comment].
+  - destruct d as [n l c|n b vals attrs c|s]; cbn [wf_item wf_decl decl_comment] in *.
+    + eexists. eexists. split; [unfold item_tlines; cbn [decl_tlines]; rewrite <- !app_assoc; reflexivity|].
+      split; [|split; [|reflexivity]].
+      * apply andb_true_iff in Hwf as [H _]. apply andb_true_iff in H as [_ H]. exact H.
+      * unfold item_tlines in Hall. cbn [decl_tlines] in Hall. rewrite <- !app_assoc in Hall. rewrite forallb_app in Hall.
+        apply andb_true_iff in Hall as [_ Hall]. cbn [app forallb] in Hall. apply andb_true_iff in Hall as [_ Hall]. exact Hall.
+    + assert (Hc : wf_comment T c = true) by (apply andb_true_iff in Hwf as [_ H]; exact H).
+      unfold item_tlines in *. cbn [decl_tlines] in *. rewrite <- !app_assoc in *. rewrite forallb_app in Hall. apply andb_true_iff in Hall as [_ Hall].
+      destruct attrs as [[|a l]|]; cbn [r_attrs map app] in *.
+      * eexists. eexists. split; [reflexivity|]. split; [exact Hc|]. split; [|reflexivity]. cbn [forallb] in Hall. apply andb_true_iff in Hall as [_ Hall]. exact Hall.
+      * eexists. eexists. split; [reflexivity|]. split; [exact Hc|]. split; [|reflexivity]. cbn [forallb] in Hall. apply andb_true_iff in Hall as [_ Hall]. exact Hall.
+      * eexists. eexists. split; [reflexivity|]. split; [exact Hc|]. split; [|reflexivity]. cbn [forallb] in Hall. apply andb_true_iff in Hall as [_ Hall]. exact Hall.
+    + assert (Hc : wf_comment T (s_comment s) = true).
+      { apply andb_true_iff in Hwf as [H _]. apply andb_true_iff in H as [H _]. apply andb_true_iff in H as [H _]. apply andb_true_iff in H as [_ H]. exact H. }
+      unfold item_tlines in *. cbn [decl_tlines] in *. rewrite <- !app_assoc in *. rewrite forallb_app in Hall. apply andb_true_iff in Hall as [_ Hall].
+      destruct (s_attrs s) as [[|a l]|]; cbn [r_attrs map app] in *.
+      * eexists. eexists. split; [reflexivity|]. split; [exact Hc|]. split; [|reflexivity]. cbn [forallb] in Hall. apply andb_true_iff in Hall as [_ Hall]. exact Hall.
+      * eexists. eexists. split; [reflexivity|]. split; [exact Hc|]. split; [|reflexivity]. cbn [forallb] in Hall. apply andb_true_iff in Hall as [_ Hall]. exact Hall.
+      * eexists. eexists. split; [reflexivity|]. split; [exact Hc|]. split; [|reflexivity]. cbn [forallb] in Hall. apply andb_true_iff in Hall as [_ Hall]. exact Hall.
+  - eexists. eexists. split; [unfold item_tlines; cbn [app comment_tlines clines map]; reflexivity|]. split; [reflexivity|]. split; [|reflexivity].
+    unfold item_tlines in Hall. cbn [app forallb] in Hall. apply andb_true_iff in Hall as [_ Hall]. exact Hall.
+Qed.
+
+Definition site_line (st : style) (ds : list item) (j : nat) : nat :=
+  (length (tlines T st (firstn j ds)) + match nth_error ds j with Some it => length (clines (item_comment it)) | None => 0 end)%nat.
+
+(* [C11] the first statement line of the j-th top-level item replaced by a line the top-level parser rejects *)
+Theorem replaced_statement_rejected st ds j it c' s :
+  cr_ok (style_cr st) -> wf_style st = true -> wf_doc_with T ds = true ->
+  nth_error ds j = Some it -> (forall c, it <> IComment c) ->
+  pline_ok (PStmt [] c') = true -> (forall ac, parse_top_line T None ac c' = LErr s) ->
+  parse_with T (text_of (style_cr st) (replace_stmt (site_line st ds j) c' (tlines T st ds)))
+  = Error {| e_line := 1 + Z.of_nat (site_line st ds j); e_col := 1 + len c' - len s; e_kind := EToken |}.
+Proof.
+  intros Hcr Hst Hwf Hn Hnc Hc' Hbad. destruct (wf_doc_items ds Hwf) as [Hitems [Hadj _]].
+  destruct (wf_firstn j ds Hitems Hadj) as [Hpre Hpadj]. pose proof (wf_nth j ds it Hitems Hn) as Hit.
+  destruct (item_tlines_first st it Hst Hit Hnc) as [c0 [rest [E [Hcmt [Hrest _]]]]].
+  unfold site_line. rewrite Hn. rewrite (tlines_split st ds j it Hn), E, <- !app_assoc.
+  replace (tlines T st (firstn j ds) ++ comment_tlines [] (item_comment it) ++ PStmt [] c0 :: rest ++ tlines T st (skipn (S j) ds))
+    with ((tlines T st (firstn j ds) ++ comment_tlines [] (item_comment it)) ++ PStmt [] c0 :: rest ++ tlines T st (skipn (S j) ds))
+    by (rewrite <- app_assoc; reflexivity).
+  replace (length (tlines T st (firstn j ds)) + length (clines (item_comment it)))%nat
+    with (length (tlines T st (firstn j ds) ++ comment_tlines [] (item_comment it)))
+    by (rewrite app_length; unfold comment_tlines; rewrite map_length; reflexivity).
+  rewrite replace_stmt_at, <- app_assoc.
+  rewrite (bad_top_line st (firstn j ds) (item_comment it) c' s (rest ++ tlines T st (skipn (S j) ds)) Hmerged' Hcr Hst Hpre Hpadj Hcmt Hc').
+  - f_equal. f_equal. rewrite app_length. unfold zlen, comment_tlines. rewrite map_length. lia.
+  - rewrite forallb_app, Hrest. apply (tlines_ok st _ Hst). apply wf_skipn. exact Hitems.
+  - exact Hbad.
+Qed.
+
+(* [C11] a member line at column 0 in front of the j-th top-level item *)
+Theorem inserted_member_rejected st ds j c' s :
+  cr_ok (style_cr st) -> wf_style st = true -> wf_doc_with T ds = true -> (j <= length ds)%nat ->
+  pline_ok (PStmt [] c') = true -> (forall ac, parse_top_line T None ac c' = LErr s) ->
+  parse_with T (text_of (style_cr st) (insert_stmt (length (tlines T st (firstn j ds))) c' (tlines T st ds)))
+  = Error {| e_line := 1 + zlen (tlines T st (firstn j ds)); e_col := 1 + len c' - len s; e_kind := EToken |}.
+Proof.
+  intros Hcr Hst Hwf Hj Hc' Hbad. destruct (wf_doc_items ds Hwf) as [Hitems [Hadj _]].
+  destruct (wf_firstn j ds Hitems Hadj) as [Hpre Hpadj].
+  assert (E : tlines T st ds = tlines T st (firstn j ds) ++ tlines T st (skipn j ds)).
+  { unfold tlines. rewrite <- flat_map_app, firstn_skipn. reflexivity. }
+  rewrite E at 2. rewrite insert_stmt_at.
+  rewrite (bad_top_line st (firstn j ds) None c' s (tlines T st (skipn j ds)) Hmerged' Hcr Hst Hpre Hpadj eq_refl Hc').
+  - f_equal. f_equal. cbn [clines zlen length]. unfold zlen. cbn [length]. lia.
+  - apply (tlines_ok st _ Hst). apply wf_skipn. exact Hitems.
+  - exact Hbad.
 Qed.
 End BadLines.
 End Proofs2.
